@@ -663,10 +663,21 @@ pub fn silent_child() -> i32 {
             let _ = guard(|| text2digits(&s, &lang).ok());
             let _ = guard(|| replace_numbers_in_text(&s, &lang, 0.0));
         }
-        // every vocabulary word once
+        // every vocabulary word once, and every ordered pair and triple of class words (all error kinds,
+        // decimals, ordinals, conjunctions, refused shifts and puts)
         for w in crate::vocab::sigma_full(l) {
             let _ = guard(|| text2digits(&w, &lang).ok());
             let _ = guard(|| replace_numbers_in_text(&format!("{w} {w}"), &lang, 0.0));
+        }
+        let cls = crate::vocab::sigma_cls(l);
+        for a in &cls {
+            for b in &cls {
+                let _ = guard(|| text2digits(&format!("{a} {b}"), &lang).ok());
+                let _ = guard(|| replace_numbers_in_text(&format!("{a} {b}"), &lang, 10.0));
+                for c in cls.iter().take(8) {
+                    let _ = guard(|| replace_numbers_in_text(&format!("{a} {b} {c}"), &lang, 0.0));
+                }
+            }
         }
     }
     0
@@ -740,7 +751,7 @@ pub fn run(tier: Tier) -> i32 {
             }
             if !o.stdout.is_empty() || !o.stderr.is_empty() {
                 let show = |b: &[u8]| String::from_utf8_lossy(&b[..b.len().min(200)]).to_string();
-                ctx.report(&mut acc, Violation { lang: "*".into(), entry: "silent_child".into(), input: "every call of the call alphabet, every vocabulary word, 7 languages".into(), threshold: None, clause: "calls produce no output on the standard streams".into(), expected: "stdout and stderr empty".into(), observed: format!("stdout {} bytes {:?}; stderr {} bytes {:?}", o.stdout.len(), show(&o.stdout), o.stderr.len(), show(&o.stderr)) });
+                ctx.report(&mut acc, Violation { lang: "*".into(), entry: "silent_child".into(), input: "every call of the call alphabet, every vocabulary word, every pair and triple of class words, 7 languages".into(), threshold: None, clause: "calls produce no output on the standard streams".into(), expected: "stdout and stderr empty".into(), observed: format!("stdout {} bytes {:?}; stderr {} bytes {:?}", o.stdout.len(), show(&o.stdout), o.stderr.len(), show(&o.stderr)) });
             }
         }
         Err(e) => {
